@@ -84,7 +84,7 @@ def plan(tier):
     specs = [{'kind': 'shapes', 'depth': depth, 'part': i, 'parts': parts} for i in range(parts)]
     specs += [{'kind': 'deep', 'depth': d, 'n': 2500 if tier == 'quick' else 40000, 'k': i}
               for i, d in enumerate([3, 3, 4, 4] if tier == 'quick' else [4] * 10 + [5] * 6)]
-    specs += [{'kind': 'programs', 'n': 600 if tier == 'quick' else 12000, 'k': i} for i in range(6 if tier == 'quick' else 16)]
+    specs += [{'kind': 'programs', 'n': 1000 if tier == 'quick' else 12000, 'k': i} for i in range(6 if tier == 'quick' else 16)]
     return specs
 
 
